@@ -509,6 +509,10 @@ pub fn c13(tier: Tier) -> Vec<Scenario> {
     s.answer_after_abandon = false;
     s.select_starts = vec![0, 1];
     s.oracles = Oracles { leak: true, ids: true, route: true, term: true, ..Default::default() };
+    out.push(s.clone());
+    // ... and with the Abandon as the last thing that happens on the connection
+    s.name = "C13/abandon-in-flight-stream-after-an-item-then-quiet".into();
+    s.clients[1].script.pop();
     out.push(s);
     // the request write stalls, the timeout of the waiting call fires meanwhile (the driver has
     // the operation in hand by then), the write completes later
@@ -622,6 +626,38 @@ pub fn c05(tier: Tier) -> Vec<Scenario> {
         client(vec![start("s0", Chain::Direct), Call::Abandon(AbTarget::Fixed(77)), Call::Next, Call::Next, Call::Finish]),
     ];
     s.plans.insert("s0".into(), plan_items(&[E]));
+    s.select_starts = vec![1];
+    s.oracles = Oracles { ids: true, route: true, ..Default::default() };
+    out.push(s);
+    // a timed stream runs into its timeout and is then finished (two releases of one ID) while
+    // other handles start operations
+    let mut s = Scenario::new("C05/stream-timeout-then-finish");
+    s.clients = vec![
+        client(vec![Call::Start { marker: "ts".into(), chain: Chain::Direct, timeout: Some(10), ctrl: false, opts: false, own_paging: false }, Call::Next, Call::Finish]),
+        client(vec![single(OpKind::Compare, "b0")]),
+        client(vec![single(OpKind::Compare, "c0")]),
+    ];
+    s.plans.insert("ts".into(), Plan { silent: true, ..Default::default() });
+    s.tick_budget = 2;
+    s.select_starts = vec![0, 1];
+    s.oracles = Oracles { ids: true, route: true, ..Default::default() };
+    out.push(s);
+    // callers that go away while their operations are pending; the server answers everything, late
+    let mut s = Scenario::new("C05/callers-go-away");
+    s.clients = vec![client(vec![single(OpKind::Compare, "g0")]), client(vec![single(OpKind::Compare, "g1")]), client(vec![single(OpKind::Compare, "g2"), single(OpKind::Bind, "g3")])];
+    s.cancellable = vec![0, 1];
+    s.select_starts = vec![0, 1];
+    s.oracles = Oracles { ids: true, route: true, ..Default::default() };
+    out.push(s);
+    // a paged search next to an operation that times out and is answered late
+    let mut s = Scenario::new("C05/paged-next-to-a-timed-out-op");
+    s.clients = vec![
+        client(vec![start("pg", Chain::Paged(1)), Call::Next, Call::Next, Call::Next, Call::Finish]),
+        client(vec![tsingle(OpKind::Compare, "t0", 10), single(OpKind::Compare, "c1")]),
+    ];
+    s.plans.insert("pg".into(), Plan { total: 2, ..Default::default() });
+    s.tick_ms = 10;
+    s.tick_budget = 1;
     s.select_starts = vec![1];
     s.oracles = Oracles { ids: true, route: true, ..Default::default() };
     out.push(s);
